@@ -329,7 +329,7 @@ func runJobs(jobs []*job, n int) {
 						}
 						j.res = &Result{Prop: j.prop, Scenario: j.part, Capped: "worker died on a case; rest of the shard not covered",
 							Outcomes: map[string]int64{}, Execs: 1,
-							Violations: []*Violation{{Key: "process-killed:" + first, Msg: "the worker process died while evaluating this input: " + first, Input: string(in)}}}
+							Violations: []*Violation{{Key: "process-killed@" + j.part + ":" + first, Msg: "the worker process died while evaluating this input: " + first, Input: string(in)}}}
 						os.Remove(cur)
 						continue
 					}
